@@ -214,7 +214,7 @@ func runC11(r *mc.Run) {
 		}
 		r.Eval(id, true, "intel:"+verdict(err))
 	}
-	if cos, err := os.ReadFile("/repo/testing/testdata/ccel/cos-113-tdx-quote.dat"); err == nil {
+	if cos, err := os.ReadFile(repoRoot() + "/testing/testdata/ccel/cos-113-tdx-quote.dat"); err == nil {
 		id := "intel-sample/COS/L0"
 		if r.Want(id) {
 			when := intelRefTime
